@@ -171,12 +171,22 @@ def _call(args):
     return fn(item)
 
 
-def pmap(fn, items, workers=None):
-    """process-parallel map of a module-level function; results in input order"""
+class ItemTimeout(BaseException):
+    pass
+
+
+def pmap(fn, items, workers=None, budget=None, on_timeout=None):
+    """process-parallel map of a module-level function; results in input order.
+    budget: wall-clock seconds one item may take (a synchronous endless loop in the code under test never gets back
+    to the simulated event loop, so only a signal can end it); on_timeout(item) supplies the result for such an item,
+    without it the check ends with a harness error"""
     items = list(items)
     workers = workers or int(os.environ.get("VERIF_WORKERS", "0")) or min(16, os.cpu_count() or 1)
-    if workers <= 1 or len(items) <= 1:
-        return [fn(it) for it in items]
+    if budget is None:
+        # no work item of any check needs anything near this: a check must end, also when the code under test spins
+        budget = float(os.environ.get("VERIF_ITEM_BUDGET", "1800"))
+    if len(items) == 0:
+        return []
     ctx = multiprocessing.get_context("fork")
     chunk = max(1, len(items) // (workers * 8))
     # a worker that dies (or lets a BaseException such as the wall-clock watchdog's escape) must end the check with a
@@ -184,16 +194,34 @@ def pmap(fn, items, workers=None):
     import concurrent.futures
     import functools
     with concurrent.futures.ProcessPoolExecutor(workers, mp_context=ctx) as pool:
-        out = list(pool.map(functools.partial(_guarded, fn), items, chunksize=chunk))
-    for tag, val in out:
-        if tag != "ok":
-            raise RuntimeError("worker failed: " + val)
-    return [val for _, val in out]
+        out = list(pool.map(functools.partial(_guarded, fn, budget), items, chunksize=chunk))
+    res = []
+    for (tag, val), item in zip(out, items):
+        if tag == "timeout" and on_timeout is not None:
+            res.append(on_timeout(item))
+        elif tag != "ok":
+            raise RuntimeError("worker failed: " + str(val))
+        else:
+            res.append(val)
+    return res
 
 
-def _guarded(fn, item):
+def _guarded(fn, budget, item):
+    import signal
+
+    def alarm(signum, frame):
+        raise ItemTimeout()
     try:
-        return "ok", fn(item)
+        if budget:
+            signal.signal(signal.SIGALRM, alarm)
+            signal.setitimer(signal.ITIMER_REAL, budget)
+        try:
+            return "ok", fn(item)
+        finally:
+            if budget:
+                signal.setitimer(signal.ITIMER_REAL, 0)
+    except ItemTimeout:
+        return "timeout", f"no result within {budget} s of wall clock"
     except BaseException as exc:       # noqa - incl. KeyboardInterrupt subclasses raised by watchdogs
         import traceback
         return "error", "".join(traceback.format_exception(type(exc), exc, exc.__traceback__))[-2000:]
